@@ -50,7 +50,11 @@ func instrHook(site int) {
 	gid := curGID()
 	for i := 0; i < instrN; i++ {
 		if instrGIDs[i] == gid {
-			b.YieldCode(i, siteInstr)
+			if site < 0 {
+				b.YieldCode(i, siteRelease)
+			} else {
+				b.YieldCode(i, siteInstr)
+			}
 			return
 		}
 	}
